@@ -510,7 +510,7 @@ func TestConnectionHistory(t *testing.T) {
 				var k uint16
 				want := map[string]uint64{}
 				n := 1
-				switch rapid.IntRange(0, 5).Draw(t, "method") {
+				switch rapid.IntRange(0, 7).Draw(t, "method") {
 				case 0:
 					lvl := rapid.IntRange(0, 5).Draw(t, "level")
 					name, k, want["level"] = fmt.Sprintf("SetSessionPrivilegeLevel(%d)", lvl), uint16(ref.NetFnApp)<<8|uint16(ref.CmdSetSessPriv), uint64(lvl)
@@ -539,6 +539,26 @@ func TestConnectionHistory(t *testing.T) {
 				case 5:
 					name, k = "GetSystemGUID()", uint16(ref.NetFnApp)<<8|uint16(ref.CmdGetSystemGUID)
 					l.s.GetSystemGUID(ctx)
+				case 6:
+					// session info by ID: IDs that mean something to the session itself
+					// (its own two IDs, their neighbours) as well as arbitrary ones
+					id := rapid.SampledFrom([]uint32{l.s.ID(), l.s.LocalID, l.s.RemoteID, l.s.RemoteID + 1, 0, 1, 2, 0xffffffff, rapid.Uint32().Draw(t, "id")}).Draw(t, "sessionID")
+					name, k = fmt.Sprintf("GetSessionInfo(by ID %#x; own IDs %#x/%#x)", id, l.s.LocalID, l.s.RemoteID), uint16(ref.NetFnApp)<<8|uint16(ref.CmdGetSessionInfo)
+					want["index"], want["id"] = 0xFF, uint64(id)
+					l.s.GetSessionInfo(ctx, &ipmi.GetSessionInfoReq{Index: ipmi.SessionIndexID, ID: id})
+					ev.Label("history:session-info-by-id")
+				case 7:
+					if rapid.Bool().Draw(t, "byHandle") {
+						h := rapid.Byte().Draw(t, "handle")
+						name, k = fmt.Sprintf("GetSessionInfo(by handle %#x)", h), uint16(ref.NetFnApp)<<8|uint16(ref.CmdGetSessionInfo)
+						want["index"], want["handle"] = 0xFE, uint64(h)
+						l.s.GetSessionInfo(ctx, &ipmi.GetSessionInfoReq{Index: ipmi.SessionIndexHandle, Handle: ipmi.SessionHandle(h)})
+					} else {
+						idx := rapid.IntRange(0, 0xFD).Draw(t, "index")
+						name, k = fmt.Sprintf("GetSessionInfo(index %d)", idx), uint16(ref.NetFnApp)<<8|uint16(ref.CmdGetSessionInfo)
+						want["index"] = uint64(idx)
+						l.s.GetSessionInfo(ctx, &ipmi.GetSessionInfoReq{Index: ipmi.SessionIndex(idx)})
+					}
 				}
 				ev.Eval()
 				if err := verifyN(w, before, n, name, k, 0, want, l.bs); err != nil {
@@ -569,7 +589,7 @@ func TestConnectionHistory(t *testing.T) {
 }
 
 func TestCoverage(t *testing.T) {
-	need := []string{"history:privilege-query-after-change", "history:reopen-after-in-session-traffic", "history:retransmissions-checked", "long-username-refused", "enum:cipher-suites", "enum:dcmi", "enum:dcmi-entity-instance", "handshake:auth1", "handshake:auth2", "handshake:auth3"}
+	need := []string{"history:session-info-by-id", "history:privilege-query-after-change", "history:reopen-after-in-session-traffic", "history:retransmissions-checked", "long-username-refused", "enum:cipher-suites", "enum:dcmi", "enum:dcmi-entity-instance", "handshake:auth1", "handshake:auth2", "handshake:auth3"}
 	for _, e := range hx.Catalogue() {
 		_ = e
 	}
